@@ -37,6 +37,8 @@
 //! `clap` - enable clap derivations for gamedig settings types. <br>
 //! `tls` - enable TLS support for the HTTP client.
 
+#![allow(unexpected_cfgs)]
+
 pub mod errors;
 #[cfg(feature = "games")]
 pub mod games;
@@ -51,6 +53,9 @@ mod utils;
 
 #[cfg(feature = "packet_capture")]
 pub mod capture;
+
+#[cfg(gamedig_verif)]
+pub mod verif_hook;
 
 pub use errors::*;
 #[cfg(feature = "games")]
